@@ -24,7 +24,7 @@ NoOtherEnd == pc \in {"start", "read", "loaded", "done"}
 
 \* what a finished run must look like, given the library's own result on the same bytes
 RunOK(e) ==
-  /\ e.st = "ran"
+  /\ e.st = "ran"                                                         \* "terminates" (not "timeout": no exit within the deadline)
   /\ e.status = <<0>> /\ e.signal = <<>> /\ ~e.stderr_panicked      \* "never aborts with a panic"
   /\ e.lib.st \in {"ok", "err"}
   /\ e.stdout = e.lib.text \o "\n"
